@@ -4,6 +4,8 @@
 // freshly drawn legal-behaviour knobs of the simulated heap.
 #include "runner.h"
 
+#include <algorithm>
+
 namespace {
 
 struct RunOut {
@@ -213,6 +215,13 @@ JP runC17(uint64_t runSeed, int64_t runIdx, const TierCfg &cfg) {
         step(c);
     }
     line->set("n_alloc", n);
+    {
+        // how large this input is, in the unit that drives the function's allocations (for the evidence)
+        int64_t sz = (int64_t)op.cells.size();
+        if (op.fn == FN_gridDisk || op.fn == FN_gridDiskDistances) sz = op.ints.empty() ? 0 : op.ints[0];
+        if (!op.loops.empty()) sz = std::max<int64_t>((int64_t)(ref.out.size() / 8), (int64_t)op.loops[0].size());
+        line->set("input_size", sz);
+    }
     // 3. complete enumeration of single failures
     int64_t enumN = n;
     bool exhaustive = true;
